@@ -16,6 +16,7 @@ import (
 	"sort"
 	"strings"
 	"testing"
+	"time"
 
 	"cosmossdk.io/log"
 	sdkmath "cosmossdk.io/math"
@@ -23,14 +24,17 @@ import (
 	authcodec "github.com/cosmos/cosmos-sdk/x/auth/codec"
 	cryptocodec "github.com/cosmos/cosmos-sdk/crypto/codec"
 	sdk "github.com/cosmos/cosmos-sdk/types"
+	slashingtypes "github.com/cosmos/cosmos-sdk/x/slashing/types"
 	stakingtypes "github.com/cosmos/cosmos-sdk/x/staking/types"
+	"github.com/onsi/ginkgo/v2"
 	chainparams "github.com/palomachain/paloma/v2/app/params"
+	"github.com/palomachain/paloma/v2/tests/integration/helper"
 	"github.com/palomachain/paloma/v2/verifharness/emit"
 	consensustypes "github.com/palomachain/paloma/v2/x/consensus/types"
 	evmkeeper "github.com/palomachain/paloma/v2/x/evm/keeper"
 	evmtypes "github.com/palomachain/paloma/v2/x/evm/types"
 	schedulertypes "github.com/palomachain/paloma/v2/x/scheduler/types"
-	skywaykeeper "github.com/palomachain/paloma/v2/x/skyway/keeper"
+	treasurytypes "github.com/palomachain/paloma/v2/x/treasury/types"
 	valsettypes "github.com/palomachain/paloma/v2/x/valset/types"
 )
 
@@ -338,7 +342,7 @@ func genTransform(r *rand.Rand, next *int64) tcase {
 // ---------- part 2: histories on the real keepers ----------
 
 type env struct {
-	in     skywaykeeper.TestInput
+	in     *helper.Fixture
 	ctx    sdk.Context
 	nvals  int
 	chains map[int]bool // supported chains (added)
@@ -406,8 +410,10 @@ func sameVals(x, y []rval) bool {
 }
 
 func newEnv(t *testing.T) *env {
-	in := skywaykeeper.CreateTestEnv(t)
-	ctx := sdk.UnwrapSDKContext(in.Context).WithLogger(log.NewNopLogger())
+	// the integration fixture: real auth/bank/staking/slashing + all Paloma keepers with a codec that
+	// knows the consensus and evm message types (InitFixture does not use its argument)
+	in := helper.InitFixture(ginkgo.GinkgoT())
+	ctx := in.Ctx.WithLogger(log.NewNopLogger())
 	return &env{in: in, ctx: ctx, chains: map[int]bool{}, scID: 1, seen: map[string]map[uint64]bool{}, known: map[uint64]rsnapObs{}}
 }
 
@@ -435,7 +441,23 @@ func (e *env) setValidator(i int, status stakingtypes.BondStatus, jailed bool, t
 	if err := e.in.StakingKeeper.SetValidator(e.ctx, v); err != nil {
 		return err
 	}
-	return e.in.StakingKeeper.SetValidatorByConsAddr(e.ctx, v)
+	if err := e.in.StakingKeeper.SetValidatorByConsAddr(e.ctx, v); err != nil {
+		return err
+	}
+	// what relayer selection needs (so that valset messages really get enqueued): a signing
+	// info for the uptime metric and a relayer fee on every chain
+	cons, err := v.GetConsAddr()
+	if err != nil {
+		return err
+	}
+	if err := e.in.SlashingKeeper.SetValidatorSigningInfo(e.ctx, cons, slashingtypes.NewValidatorSigningInfo(cons, 0, 0, time.Unix(0, 0), false, 0)); err != nil {
+		return err
+	}
+	fs := &treasurytypes.RelayerFeeSetting{ValAddress: valAddr(i).String()}
+	for c := 0; c < 3; c++ {
+		fs.Fees = append(fs.Fees, treasurytypes.RelayerFeeSetting_FeeSetting{Multiplicator: sdkmath.LegacyMustNewDecFromStr("1.10"), ChainReferenceId: chainName(c)})
+	}
+	return e.in.TreasuryKeeper.SetRelayerFee(e.ctx, valAddr(i), fs)
 }
 
 type sv struct {
@@ -524,7 +546,7 @@ func (e *env) newSent(a *addrReg) []sentMsg {
 	sort.Ints(cs)
 	for _, c := range cs {
 		q := consensustypes.Queue(evmtypes.ConsensusTurnstoneMessage, "evm", chainName(c))
-		msgs, err := e.in.EvmKeeper.ConsensusKeeper.GetMessagesFromQueue(e.ctx, q, 0)
+		msgs, err := e.in.ConsensusKeeper.GetMessagesFromQueue(e.ctx, q, 0)
 		if err != nil {
 			continue
 		}
@@ -536,7 +558,7 @@ func (e *env) newSent(a *addrReg) []sentMsg {
 				continue
 			}
 			e.seen[q][m.GetId()] = true
-			cm, err := m.ConsensusMsg(skywaykeeper.MakeTestMarshaler())
+			cm, err := m.ConsensusMsg(e.in.Codec)
 			if err != nil {
 				continue
 			}
@@ -790,6 +812,7 @@ func doHistory(t *testing.T, run *emit.Run, a *addrReg, r *rand.Rand, next *int6
 				map[string]any{"kind": "history", "ops": hist})
 		}
 		before := e.lastID
+		e.in.MetrixKeeper.UpdateUptime(e.ctx)
 		var sn *valsettypes.Snapshot
 		perr := func() (p any) {
 			defer func() { p = recover() }()
